@@ -1,6 +1,7 @@
 from common import COMMON_ASSUME
 
 PROP = dict(
+    technique='property-based testing: reported metadata vs semantic ground truth, bytes reported/modified and cross-source agreement',
     harness=['c16_meta.c', 'vf_arr.c'],
     level_text=('generated-input search: for FOR (scalar and batch encoder), '
                 'PFOR (three thresholds), group, RLE (both forms), Elias '
